@@ -27,7 +27,8 @@ pub fn base_cfg() -> Cfg {
 }
 
 pub async fn put(t: &Tree, kvs: &[(&[u8], &[u8])]) -> Result<(), String> {
-    let mut tx = t.begin().map_err(|e| e.to_string())?;
+    // write-only: registers no snapshot, so it cannot disturb the snapshot registry
+    let mut tx = t.begin_with_mode(Mode::WriteOnly).map_err(|e| e.to_string())?;
     for (k, v) in kvs {
         tx.set(*k, *v).map_err(|e| e.to_string())?;
     }
@@ -35,7 +36,7 @@ pub async fn put(t: &Tree, kvs: &[(&[u8], &[u8])]) -> Result<(), String> {
 }
 
 pub async fn del(t: &Tree, k: &[u8]) -> Result<(), String> {
-    let mut tx = t.begin().map_err(|e| e.to_string())?;
+    let mut tx = t.begin_with_mode(Mode::WriteOnly).map_err(|e| e.to_string())?;
     tx.delete(k).map_err(|e| e.to_string())?;
     tx.commit().await.map_err(|e| format!("commit: {e}"))
 }
@@ -214,8 +215,169 @@ fn c07_l1_key_disjoint_tables(dir: PathBuf) -> ScenFut<'static> {
     })
 }
 
+async fn compact_all(t: &Tree) -> Result<(), String> {
+    for _ in 0..8 {
+        if !t.verif_compact_once().map_err(|e| e.to_string())? {
+            break;
+        }
+    }
+    Ok(())
+}
+
+fn c01_cfg() -> Cfg {
+    Cfg { level_count: 2, l0_max_files: 1, max_bytes_for_level: 512, ..base_cfg() }
+}
+
+fn c01_shared_start_reader_dropped(dir: PathBuf) -> ScenFut<'static> {
+    Box::pin(async move {
+        let t = c01_cfg().open(&dir).map_err(|e| e.to_string())?;
+        put(&t, &[(b"k", b"v1")]).await?;
+        t.verif_flush().map_err(|e| e.to_string())?;
+        let r1 = t.begin_with_mode(Mode::ReadOnly).map_err(|e| e.to_string())?;
+        let r2 = t.begin_with_mode(Mode::ReadOnly).map_err(|e| e.to_string())?;
+        drop(r2);
+        put(&t, &[(b"k", b"v2")]).await?;
+        t.verif_flush().map_err(|e| e.to_string())?;
+        let snaps = t.verif_snapshot_seqs();
+        compact_all(&t).await?;
+        let got = r1.get(&b"k"[..]).map_err(|e| e.to_string())?;
+        drop(r1);
+        close(t).await;
+        if got.as_deref() == Some(&b"v1"[..]) {
+            Ok(())
+        } else {
+            Err(format!("two readers share a start point, one is dropped, k is overwritten, flush+compaction: the surviving reader's get(k) = {:?} instead of v1 (snapshot registry before compaction: {:?})", got.map(|v| String::from_utf8_lossy(&v).to_string()), snaps))
+        }
+    })
+}
+
+fn c01_cursor_unregisters_snapshot(dir: PathBuf) -> ScenFut<'static> {
+    Box::pin(async move {
+        let t = c01_cfg().open(&dir).map_err(|e| e.to_string())?;
+        put(&t, &[(b"k", b"v1")]).await?;
+        t.verif_flush().map_err(|e| e.to_string())?;
+        let r1 = t.begin_with_mode(Mode::ReadOnly).map_err(|e| e.to_string())?;
+        {
+            let mut it = r1.range(&b"a"[..], &b"z"[..]).map_err(|e| e.to_string())?;
+            let _ = it.seek_first();
+        }
+        let snaps = t.verif_snapshot_seqs();
+        put(&t, &[(b"k", b"v2")]).await?;
+        t.verif_flush().map_err(|e| e.to_string())?;
+        compact_all(&t).await?;
+        let got = r1.get(&b"k"[..]).map_err(|e| e.to_string())?;
+        drop(r1);
+        close(t).await;
+        if got.as_deref() == Some(&b"v1"[..]) {
+            Ok(())
+        } else {
+            Err(format!("a reader opens and drops a range cursor, k is overwritten, flush+compaction: the reader's get(k) = {:?} instead of v1 (snapshot registry after the cursor was dropped: {:?})", got.map(|v| String::from_utf8_lossy(&v).to_string()), snaps))
+        }
+    })
+}
+
+fn c01_bottom_level_delete_under_reader(dir: PathBuf) -> ScenFut<'static> {
+    Box::pin(async move {
+        let t = c01_cfg().open(&dir).map_err(|e| e.to_string())?;
+        put(&t, &[(b"k", b"v1")]).await?;
+        t.verif_flush().map_err(|e| e.to_string())?;
+        let r1 = t.begin_with_mode(Mode::ReadOnly).map_err(|e| e.to_string())?;
+        del(&t, b"k").await?;
+        t.verif_flush().map_err(|e| e.to_string())?;
+        let snaps = t.verif_snapshot_seqs();
+        compact_all(&t).await?;
+        let got = r1.get(&b"k"[..]).map_err(|e| e.to_string())?;
+        // a transaction begun after the delete must keep seeing the key as deleted
+        let fresh = t.begin_with_mode(Mode::ReadOnly).map_err(|e| e.to_string())?;
+        let got_fresh = fresh.get(&b"k"[..]).map_err(|e| e.to_string())?;
+        drop(fresh);
+        drop(r1);
+        close(t).await;
+        if got.as_deref() != Some(&b"v1"[..]) {
+            return Err(format!("a reader is open, k is hard-deleted, flush + compaction to the bottom level: the reader's get(k) = {:?} instead of v1 (snapshot registry: {:?})", got.map(|v| String::from_utf8_lossy(&v).to_string()), snaps));
+        }
+        if got_fresh.is_some() {
+            return Err("after delete + bottom-level compaction under an open older reader, a new transaction sees the deleted key again".into());
+        }
+        Ok(())
+    })
+}
+
+fn c09_overlay_direction_switch(dir: PathBuf) -> ScenFut<'static> {
+    Box::pin(async move {
+        let t = base_cfg().open(&dir).map_err(|e| e.to_string())?;
+        put(&t, &[(b"k", b"1"), (b"m", b"2")]).await?;
+        let r = (|| -> Result<(), String> {
+            // committed {k, m}, pending {z}: live list [k, m, z]
+            let mut tx = t.begin().map_err(|e| e.to_string())?;
+            tx.set(&b"z"[..], &b"p"[..]).map_err(|e| e.to_string())?;
+            let mut it = tx.range(&b"a"[..], &b"zz"[..]).map_err(|e| e.to_string())?;
+            it.seek(b"z").map_err(|e| e.to_string())?;
+            if !it.valid() || it.key().user_key() != b"z" {
+                return Err("seek(z) does not land on the pending key z".into());
+            }
+            let ok = it.prev().map_err(|e| e.to_string())?;
+            if !ok || !it.valid() || it.key().user_key() != b"m" {
+                return Err(format!(
+                    "cursor over committed {{k,m}} + pending {{z}}: seek(z) then prev is {} instead of m",
+                    if it.valid() { String::from_utf8_lossy(it.key().user_key()).to_string() } else { "invalid".into() }
+                ));
+            }
+            drop(it);
+            // only pending keys {b, d}: seek(b) then prev must run off the front
+            let mut tx2 = t.begin().map_err(|e| e.to_string())?;
+            tx2.set(&b"b"[..], &b"p"[..]).map_err(|e| e.to_string())?;
+            tx2.set(&b"d"[..], &b"p"[..]).map_err(|e| e.to_string())?;
+            let mut it = tx2.range(&b"a"[..], &b"e"[..]).map_err(|e| e.to_string())?;
+            it.seek(b"b").map_err(|e| e.to_string())?;
+            let ok = it.prev().map_err(|e| e.to_string())?;
+            if ok || it.valid() {
+                return Err(format!(
+                    "cursor over pending {{b,d}} in [a,e): seek(b) then prev lands on {} instead of running off the front",
+                    String::from_utf8_lossy(it.key().user_key())
+                ));
+            }
+            it.seek_last().map_err(|e| e.to_string())?;
+            let ok = it.next().map_err(|e| e.to_string())?;
+            if ok || it.valid() {
+                return Err(format!(
+                    "cursor over pending {{b,d}} in [a,e): seek_last then next lands on {} instead of running off the end",
+                    String::from_utf8_lossy(it.key().user_key())
+                ));
+            }
+            Ok(())
+        })();
+        close(t).await;
+        r
+    })
+}
+
 pub fn all() -> Vec<Scenario> {
     vec![
+        Scenario {
+            id: "C09-overlay-direction-switch",
+            property: "C09",
+            title: "direction reversal of a cursor that merges pending writes with the snapshot",
+            run: c09_overlay_direction_switch,
+        },
+        Scenario {
+            id: "C01-shared-start-reader-dropped",
+            property: "C01",
+            title: "two readers share a start point, one is dropped, compaction runs",
+            run: c01_shared_start_reader_dropped,
+        },
+        Scenario {
+            id: "C01-cursor-unregisters-snapshot",
+            property: "C01",
+            title: "a reader opens a range cursor, then compaction runs",
+            run: c01_cursor_unregisters_snapshot,
+        },
+        Scenario {
+            id: "C01-bottom-level-delete-under-reader",
+            property: "C01",
+            title: "hard delete compacted to the bottom level while an older reader is open",
+            run: c01_bottom_level_delete_under_reader,
+        },
         Scenario {
             id: "C07-last-sequence-after-tombstone-compaction",
             property: "C07",
